@@ -7,6 +7,7 @@ import (
 	"fmt"
 	"io"
 	"os"
+	"path/filepath"
 	"os/exec"
 	"runtime"
 	"strings"
@@ -40,6 +41,9 @@ func WorkerMain() {
 		os.MkdirAll(dir, 0o755)
 		os.Chdir(dir)
 	}
+	// a home directory inside the scratch area (it does not exist): code that expands "~" or looks into $HOME shows up
+	// in the jail's snapshot instead of touching the real home directory
+	os.Setenv("HOME", filepath.Join(env.Scratch, "verif-home"))
 	in := bufio.NewReaderSize(os.Stdin, 1<<20)
 	out := bufio.NewWriter(os.Stdout)
 	var outMu sync.Mutex
@@ -136,6 +140,7 @@ type Pool struct {
 	Mode   string // "plain" or "chroot"
 	Race   bool
 	Dir    string // scratch dir (created); for chroot the worker confines itself to it
+	Env    []string // further environment of the worker process (e.g. GOMAXPROCS=1: a process that starts on one CPU)
 	cmd    *exec.Cmd
 	stdin  io.WriteCloser
 	stdout *bufio.Reader
@@ -178,6 +183,7 @@ func (p *Pool) start() error {
 		mode = "plain"
 	}
 	cmd.Env = append(os.Environ(), "VERIF_WORKER="+mode, "VERIF_WORKER_DIR="+p.Dir, "GORACE=halt_on_error=1")
+	cmd.Env = append(cmd.Env, p.Env...)
 	stdin, err := cmd.StdinPipe()
 	if err != nil {
 		return err
